@@ -1255,4 +1255,80 @@ Proof.
   unfold json_valid. rewrite Hjp. reflexivity.
 Qed.
 
+(** ** Exactness.  A number literal is canonical when [ff] writes for the
+    float [pf] reads from it the literal itself (true of what json.Marshal
+    writes: the shortest spelling is a fixed point).  A value all of whose
+    number literals are canonical comes back as exactly the same tree:
+    nothing at all is respelt.  This is what makes comparing the decoded Go
+    value with the original one by reflect.DeepEqual sound whenever
+    encoding/json's own round trip is the identity. *)
+Definition canon_num (t : list N) : Prop :=
+  forall sg u f, (sg = [] \/ sg = [45]) -> t = sg ++ u -> pf u = Some f -> ff f = u.
+
+Inductive all_nums (P : list N -> Prop) : pvalue -> Prop :=
+| AN_null : all_nums P PNull
+| AN_bool b : all_nums P (PBool b)
+| AN_num t : P t -> all_nums P (PNum t)
+| AN_str s : all_nums P (PStr s)
+| AN_arr l : Forall (all_nums P) l -> all_nums P (PArr l)
+| AN_obj l : Forall (fun kv => all_nums P (snd kv)) l -> all_nums P (PObj l).
+
+Lemma jrel_exact : forall v, all_nums canon_num v -> forall j, jrel (jv v) j -> j = jv v.
+Proof.
+  induction v as [|b|t|rs|vs IH|ms IH] using pvalue_ind'; intros Hc j Hj.
+  - inversion Hj; reflexivity.
+  - inversion Hj; reflexivity.
+  - cbn [jv] in *. inversion Hj as [| |a b0 Hn| | |]; subst. inversion Hc as [| |t' Ht| | |]; subst.
+    destruct Hn as [->|(sg & u & f & Hsg & -> & Hp & ->)]; [reflexivity|].
+    now rewrite (Ht sg u f Hsg eq_refl Hp).
+  - inversion Hj; reflexivity.
+  - cbn [jv] in *. inversion Hj as [| | | |l l' HF|]; subst. f_equal.
+    inversion Hc as [| | | |l Hl|]; subst. clear Hj Hc.
+    revert l' HF. induction IH as [|x xs Hx Hxs IHxs]; intros l' HF; cbn [map] in HF.
+    + inversion HF. reflexivity.
+    + inversion HF as [|? y ? ys Hxy Hrest]; subst. inversion Hl as [|? ? Hcx Hcs]; subst.
+      cbn [map]. f_equal; [now apply Hx|now apply IHxs].
+  - rewrite jv_obj in *. inversion Hj as [| | | | |l l' HF]; subst. f_equal.
+    inversion Hc as [| | | | |l Hl]; subst. clear Hj Hc.
+    apply Forall_sort_keys in IH. apply Forall_sort_keys in Hl.
+    remember (sort_keys ms) as sm eqn:Esm. clear Esm ms.
+    revert l' HF. induction IH as [|[k x] xs Hx Hxs IHxs]; intros l' HF; cbn [map] in HF.
+    + inversion HF. reflexivity.
+    + inversion HF as [|? [k' y] ? ys [Hk Hxy] Hrest]; subst. inversion Hl as [|? ? Hcx Hcs]; subst.
+      cbn [map fst snd] in *. subst k'. f_equal; [f_equal; now apply Hx|now apply IHxs].
+Qed.
+
+Lemma all_nums_global : (forall u f, pf u = Some f -> ff f = u) -> forall v, all_nums canon_num v.
+Proof.
+  intros H. induction v as [|b|t|rs|vs IH|ms IH] using pvalue_ind'; constructor; auto.
+  intros sg u f _ _ Hp. now apply H.
+Qed.
+
+Theorem roundtrip_exact v :
+  wfpb v = true -> fokb pf v = true -> all_nums canon_num v ->
+  exists out, unmarshal pf ff (print_doc is_print v) = Ok (UOk out) /\ json_parse out = Some (jv v).
+Proof.
+  intros Hw Hf Hc. destruct (roundtrip v Hw Hf) as (out & j' & Hu & Hp & Hr).
+  exists out. split; [exact Hu|]. now rewrite Hp, (jrel_exact v Hc j' Hr).
+Qed.
+
+(** Any reader of the JSON text that does not depend on how a float is
+    spelt reads, after the round trip, what it reads from the original. *)
+Theorem roundtrip_decoder {A} (dec : jvalue -> A) v :
+  (forall a b, jrel a b -> dec a = dec b) ->
+  wfpb v = true -> fokb pf v = true ->
+  exists out j', unmarshal pf ff (print_doc is_print v) = Ok (UOk out) /\
+    json_parse out = Some j' /\ dec j' = dec (jv v).
+Proof.
+  intros Hd Hw Hf. destruct (roundtrip v Hw Hf) as (out & j' & Hu & Hp & Hr).
+  exists out, j'. repeat split; auto. symmetry. now apply Hd.
+Qed.
+
 End RoundTrip.
+
+Lemma list_N_eqb_true a : forall b, list_N_eqb a b = true -> a = b.
+Proof.
+  induction a as [|x a IH]; intros [|y b] H; try discriminate; [reflexivity|].
+  cbn in H. apply andb_true_iff in H as [H1 H2]. apply N.eqb_eq in H1. subst. f_equal. auto.
+Qed.
+
